@@ -12,6 +12,8 @@ import Generated.C05Pairs
 import Model.ExcShape
 import Proofs.Lemmas.ExcShape
 import Generated.C05TryShape
+import Model.ExcMemo
+import Proofs.Lemmas.ExcMemo
 /-!
 # C05 — first matching catch, finally exactly once, uncaught errors fail the process
 
@@ -506,6 +508,65 @@ theorem C05_source_clause_selected (ev : String → Clause → Bool) (G : Graph)
   have h := C05_try_statement_as_parsed
   simp only [Model.ExcShape.parserOK, Bool.and_eq_true] at h
   rw [built_ok ev _ h.1.1, scanSelect_ok _ h.2.1]
+
+/-! ## a try statement has no memory: the dispatch does not depend on what the node met before -/
+
+open Model.ExcMemo in
+/-- **Memo-free dispatch is the model's scan.** The index `firstIdx` finds over the clauses of a statement is the
+index `sel` (and by `C05_handler_is_selection` the catch phase) stops at — what every execution of a try statement
+does, whatever the same node handled before. -/
+theorem C05_dispatch_is_scan (G : Graph) (x : Thrown) (cs : Catches) :
+    firstIdx (test G) cs.toList x = (sel G x cs).map (·.1) :=
+  Proofs.ExcMemo.firstIdx_sel G x cs
+
+open Model.ExcMemo in
+/-- **A node that remembers its dispatch, one clause list.** Give the statement a memo `key ↦ answer of the first
+execution that met the key` (a clause index or "no clause"), consulted before any clause test. Along EVERY history of
+thrown values — iterations of a loop, calls of the function, nested activations — the node answers like the memo-free
+scan **iff** thrown values with equal keys are dispatched alike by the scan. Generic in the thrown values, the clauses,
+the clause test and the key. -/
+theorem C05_memo_dispatch_iff {X K C : Type} [DecidableEq K] (key : X → K) (m : C → X → Bool) (cs : List C) :
+    (∀ h : List X, runHist key m cs [] h = h.map (firstIdx m cs)) ↔
+    (∀ x y, key x = key y → firstIdx m cs x = firstIdx m cs y) :=
+  Proofs.ExcMemo.memo_invisible_iff key m cs
+
+open Model.ExcMemo in
+/-- **… every clause list.** The memo is invisible for all clause lists and all histories iff the key determines the
+outcome of every clause test: `key x = key y → ∀ clause, matches clause x = matches clause y`. -/
+theorem C05_memo_key_sound_iff {X K C : Type} [DecidableEq K] (key : X → K) (m : C → X → Bool) :
+    (∀ (cs : List C) (h : List X), runHist key m cs [] h = h.map (firstIdx m cs)) ↔
+    (∀ x y, key x = key y → ∀ c, m c x = m c y) :=
+  Proofs.ExcMemo.memo_key_sound_iff key m
+
+open Model.ExcMemo in
+/-- a memo keyed by the class of the thrown object, object-less (interpreter-raised) throwables kept apart, is sound
+for every class table, clause list and history: the clause tests look at nothing else -/
+theorem C05_class_key_sound (G : Graph) (cs : List Clause) (h : List Thrown) :
+    runHist classKey (test G) cs [] h = h.map (firstIdx (test G) cs) :=
+  (Proofs.ExcMemo.memo_key_sound_iff classKey (test G)).2 (fun x y hxy c => Proofs.ExcMemo.classKey_decides G x y hxy c) cs h
+
+open Model.ExcMemo in
+/-- **The class NAME is not such a key** (negation witness; `ThrowValue.GetName()` answers `"Exception"` for an
+object-less throwable). `catch (Error $e)`: a runtime error raised by the interpreter matches, an object of class
+`Exception` does not — same name. History [runtime error, `new Exception`]: the node with a name-keyed memo runs the
+`catch (Error)` clause for both; in the other order it lets both pass. So by `C05_memo_key_sound_iff` the name does not
+determine the clause tests, and no statement about "all histories" survives a name-keyed memo. -/
+theorem C05_name_key_counterexample :
+    runHist nameKey (test witnessG) [([2], Block.nil)] [] [.internal, .obj 1 1] = [some 0, some 0] ∧
+    [Thrown.internal, .obj 1 1].map (firstIdx (test witnessG) [([2], Block.nil)]) = [some 0, none] ∧
+    runHist nameKey (test witnessG) [([2], Block.nil)] [] [.obj 1 1, .internal] = [none, none] ∧
+    ¬ (∀ x y, nameKey x = nameKey y → ∀ c, test witnessG c x = test witnessG c y) := by
+  refine ⟨rfl, rfl, rfl, ?_⟩
+  intro h
+  have := h .internal (.obj 1 1) rfl ([2], Block.nil)
+  exact absurd this (by decide)
+
+/-- **The regenerated obligation.** In the tree being checked `TryStatement` has no field beyond the embedded node and
+the three blocks the parser fills, and no method of it writes a field of the receiver (assignment, `++`, `&t.F`, a
+storing method on a field) or hands the receiver on as a value: the statement keeps no memory between executions, so
+its dispatch is `C05_dispatch_is_scan` in every execution. -/
+theorem C05_try_node_stateless :
+    Model.ExcMemo.stateless Generated.C05TryShape.node = true := by decide
 
 /-! ## exit status -/
 
